@@ -298,6 +298,11 @@ void reb_simulation_update_tree_gravity_data(struct reb_simulation* const r){
 void reb_simulation_update_tree(struct reb_simulation* const r){
 	if (r->tree_root==NULL){
 		r->tree_root = calloc(r->N_root_x*r->N_root_y*r->N_root_z,sizeof(struct reb_treecell*));
+		// No tree yet: particles that were added before a tree based module was selected are not in it.
+		for (unsigned int i=0;i<r->N;i++){
+			r->particles[i].c = NULL;
+			reb_tree_add_particle_to_tree(r, i);
+		}
 	}
 	for(int i=0;i<r->N_root;i++){
 
